@@ -31,7 +31,7 @@ def mk(fx, np, t, codes, shape=None, dirty=False, **cfg):
     return fx.Fxp(a, bool(s), w, f, raw=True, **cfg)
 
 
-HIST = ['inplace', 'view', 'resign', 'elementwise']
+HIST = ['inplace', 'view', 'resign', 'elementwise', 'intfmt']
 
 
 def warm_up(fx, np, X):
@@ -50,7 +50,8 @@ def mk_hist(fx, np, t, codes, shape=None, mode='inplace', **cfg):
       inplace     - set_val(..., index=slice) on the object itself
       view        - the same write made through a slice view of the object
       elementwise - x[i] = code one element at a time (raw codes through set_val(index=i))
-      resign      - created with the opposite signedness, resized by sign only, used, then written in place"""
+      resign      - created with the opposite signedness, resized by sign only, used, then written in place
+      intfmt      - created from integers in the INTEGER format of the same word (n_frac = 0), resized in place to n_frac, used, written in place"""
     s, w, f = t
     scalar = isinstance(codes, int)
     lo, hi = ((-(1 << (w - 1)), (1 << (w - 1)) - 1) if s else (0, (1 << w) - 1))
@@ -66,6 +67,10 @@ def mk_hist(fx, np, t, codes, shape=None, mode='inplace', **cfg):
     if mode == 'resign' and w >= 2 and w < 63:
         X = fx.Fxp(arr([0] * len(clist)), bool(not s), w, f, raw=True, **cfg)
         X.resize(signed=bool(s))
+        X.set_val(arr(other), raw=True)
+    elif mode == 'intfmt' and f != 0 and w < 63:
+        X = fx.Fxp(0 if scalar else np.zeros(arr(clist).shape, dtype=np.int64), bool(s), w, 0, **cfg)        # integer VALUES: vdtype is int
+        X.resize(n_frac=f)
         X.set_val(arr(other), raw=True)
     else:
         X = fx.Fxp(arr(other), bool(s), w, f, raw=True, **cfg)
